@@ -129,7 +129,7 @@ void Downtime::Start(bool runtimeCreated)
 	 * this downtime now *after* it has been added (important
 	 * for DB IDO, etc.)
 	 */
-	if (!GetFixed() && !checkable->IsStateOK(checkable->GetStateRaw())) {
+	if (!GetFixed() && checkable->GetProblem()) {
 		Log(LogNotice, "Downtime")
 			<< "Checkable '" << checkable->GetName() << "' already in a NOT-OK state."
 			<< " Triggering downtime now.";
